@@ -3,7 +3,12 @@
 //
 //	(1) an update that was rejected or failed (status != 200) leaves the tree of
 //	    configuration files byte-for-byte as it was, and the probe transactions
-//	    after it get the verdicts they got before it;
+//	    after it get the verdicts they got before it; "the tree" is everything
+//	    below box as walked right before and right after the request, and, on
+//	    top of that, the very path every payload file name resolves to
+//	    (filepath.Join(directory, name), wherever that is), read directly
+//	    before and after -- a name that leaves its directory must not leave
+//	    anything behind either;
 //	(2) every probe transaction, whenever it arrives (before, at any hook call,
 //	    at the publication point, after), is served entirely by the old
 //	    configuration or entirely by the configuration the payload describes --
@@ -83,7 +88,7 @@ func monitor(k *Case) []c.Hit {
 	described := describedView(k)
 
 	if k.Status != 200 {
-		before, after := treeMap(k.Before), treeMap(k.After)
+		before, after := treeMap(k.TreeBefore), treeMap(k.After)
 		var diff []string
 		covered, uncoveredDefault, uncoveredOutside := 0, 0, 0
 		note := func(f fileKey, what string) {
@@ -107,6 +112,21 @@ func monitor(k *Case) []c.Hit {
 		for f := range after {
 			if _, ok := before[f]; !ok {
 				note(f, "added")
+			}
+		}
+		// the places the payload's own file names point at, inspected directly; one
+		// below box that differs is in the walk's diff already
+		for _, l := range k.Landings {
+			walked := l.Path != ".." && !strings.HasPrefix(l.Path, "../")
+			if l.ShaBefor == l.ShaAfter || (walked && l.ShaBefor != "directory" && l.ShaAfter != "directory") {
+				continue
+			}
+			diff = append(diff, fmt.Sprintf("path %s (payload %s name %q) was %s, is %s",
+				l.Path, areaName[l.Src], l.Name, l.ShaBefor, l.ShaAfter))
+			if l.StaysIn {
+				covered++
+			} else {
+				uncoveredOutside++
 			}
 		}
 		sort.Strings(diff)
